@@ -1,6 +1,7 @@
 package sim
 
 import (
+	"context"
 	"errors"
 	"fmt"
 	"runtime/debug"
@@ -80,6 +81,14 @@ func CompileSpec(cfg *CfgSpec, prog *Node, mask int, viaDirective bool, compileE
 	return
 }
 
+// cancelledCtx: a request context that is already done. Ctx.Ctx is carried for
+// the user's operators; evaluation and event reporting must not depend on it.
+var cancelledCtx = func() context.Context {
+	c, cancel := context.WithCancel(context.Background())
+	cancel()
+	return c
+}()
+
 // inlineCh is the event channel of every program compiled for the INLINE
 // engine: one evaluation runs at a time and the channel is drained after each
 // call, so one amply sized channel serves them all.
@@ -112,6 +121,9 @@ func (c *Compiled) RunEnv(env *Env, kind string) (o Outcome) {
 // lives across several calls); its fetcher must already serve env.
 func (c *Compiled) RunCtx(ctx *eval.Ctx, env *Env, kind string) (o Outcome) {
 	o.Env = env
+	if env.Plan != nil && env.Plan.CtxDone {
+		ctx.Ctx = cancelledCtx
+	}
 	defer func() {
 		if r := recover(); r != nil {
 			if _, ok := r.(AbortPanic); ok {
